@@ -123,6 +123,23 @@ def pyFunc (name : String) (args : List Expr) (kwn : List String) (_kwv : List E
   | "sum", [.cont .list xs] | "sum", [.cont .tuple xs] => sumInts xs
   | "py_double", [x] => pyAdd x x
   | "py_swap", [a, b] => .ok (.cont .tuple [b, a])
+  -- plain helpers whose VALUE is a container of task calls (to be reduced like any value)
+  | "py_fan", [.int n] => .ok (L ((List.range n.toNat).map fun (i : Nat) => .call "ev.inc" [.int (Int.ofNat i)] [] [] [] []))
+  | "py_plan", [x, .str k] =>
+    .ok (.dict [.str "a", .str "b"] [.call "ev.inc" [x] [] [] [] [],
+      .cont .tuple [x, .call "ev.raiser" [.str k, .str "pf"] [] [] [] []]])
+  | "py_plan", [x, .none] =>
+    .ok (.dict [.str "a", .str "b"] [.call "ev.inc" [x] [] [] [] [], .cont .tuple [x, .call "ev.twice" [x] [] [] [] []]])
+  -- class Plan(n, kind): attribute `steps` is a bound method, `plan.steps()` a list of calls, `plan[i]` a tuple with a call
+  | "getattr:Plan", [.int n, k, .str "steps"] => .ok (.objv "Plan.steps" [.int n, k])
+  | "getattr:Plan", [.int n, _, .str "n"] => .ok (.int n)
+  | "call:Plan.steps", [.int n, k] =>
+    let calls := (List.range n.toNat).map fun (i : Nat) => Expr.call "ev.inc" [.int (Int.ofNat i)] [] [] [] []
+    match k with
+    | .str kind => .ok (L (calls ++ [.call "ev.raiser" [.str kind, .str "plan"] [] [] [] []]))
+    | .none => .ok (L calls)
+    | _ => .unk
+  | "getitem:Plan", [.int n, _, .int i] => .ok (.cont .tuple [.int i, .call "ev.inc" [.int (i + n)] [] [] [] []])
   | _, _ => .unk
 
 /-- library without tasks: enough for Python-level application inside task bodies -/
@@ -212,6 +229,7 @@ def libTask : String → Option TaskDef
       match fmtS (a "tag") with
       | some t => .err ⟨"BusyError", "B-" ++ t⟩
       | none => .unk
+  | "ev.mkplan" => some <| mkTask [p "n", pd "kind" .none] fun a => .ok (.objv "Plan" [a "n", a "kind"])
   | "ev.maybe_fail" => some <| mkTask [p "x", p "bad"] fun a =>
       match a "x", pyEq (a "x") (a "bad") with
       | .int z, some true => .err ⟨"ValueError", "bad-" ++ toString z⟩
